@@ -523,6 +523,10 @@ class Frame:
         if is_std or f.startswith(("anyhow::", "itertools::")):
             if name in TRANSPARENT_NAMES and args:
                 return args[0]
+            if name == "size_of" and not args and t.get("ga"):
+                sz = {"u8": 1, "i8": 1, "bool": 1, "u16": 2, "i16": 2, "u32": 4, "i32": 4, "u64": 8, "i64": 8, "usize": 8, "isize": 8, "u128": 16, "i128": 16}.get(t["ga"][0])
+                if sz is not None:
+                    return ("c", sz, None)
             if name == "next" and args:
                 return self.elem(args[0])
             if name == "not" and len(args) == 1 and f.startswith(("core::ops::bit", "anyhow::__private")):
